@@ -42,6 +42,16 @@ type msg struct {
 	pc     string
 	exited bool
 	err    error
+	ask    *askReq
+}
+
+// askReq is a drawn decision requested by the running instance; it is answered on the
+// scheduler's goroutine (the test goroutine), so the property library is only ever
+// used from there and its control-flow panics unwind the test, not an archetype.
+type askReq struct {
+	what  string
+	n     int
+	reply chan int
 }
 
 // Instance is one archetype instance under the scheduler.
@@ -60,6 +70,7 @@ type Instance struct {
 	Aborts   int
 	Crashed  bool // the scheduler will not step it any more (crash-stop)
 	stopping bool
+	pending  *askReq // a decision the instance is waiting for (set while the scheduler computes it)
 }
 
 func (in *Instance) String() string { return in.Name }
@@ -69,6 +80,8 @@ type Sim struct {
 	Insts []*Instance
 	// Choose resolves an either/with choice of the running instance.
 	Choose func(in *Instance, id string, n uint) uint
+	// Draw resolves environment nondeterminism requested through Ask: a number < n.
+	Draw func(what string, n int) int
 	// Begin / End bracket every attempt (End after all resources committed or aborted).
 	Begin    func(in *Instance, pc string)
 	End      func(in *Instance, pc string, ev trace.Event)
@@ -89,11 +102,26 @@ func (g gate) BeginCriticalSection(pc string) {
 	}
 }
 
+// Ask obtains a drawn number < n for the instance that is currently running. It must be
+// called from that instance's goroutine (i.e. from inside a resource operation or a choice).
+func (s *Sim) Ask(what string, n int) int {
+	if s.Closing || n <= 1 {
+		return 0
+	}
+	in := s.running
+	if in == nil {
+		panic("harness: Ask outside a granted attempt")
+	}
+	req := &askReq{what: what, n: n, reply: make(chan int, 1)}
+	in.up <- msg{ask: req}
+	return <-req.reply
+}
+
 func (g gate) NextFairnessCounter(id string, n uint) uint {
 	if g.in.sim.Closing {
 		return 0
 	}
-	v := g.in.sim.Choose(g.in, id, n)
+	v := uint(g.in.sim.Ask("choice:"+id, int(n)))
 	if v >= n {
 		panic(fmt.Sprintf("harness: choice %d out of range %d", v, n))
 	}
@@ -147,19 +175,42 @@ func (s *Sim) Start() error {
 }
 
 func (s *Sim) await(in *Instance) Step {
+	for {
+		st, again := s.await1(in)
+		if !again {
+			return st
+		}
+	}
+}
+
+func (s *Sim) await1(in *Instance) (Step, bool) {
 	select {
 	case m := <-in.up:
+		if m.ask != nil {
+			in.pending = m.ask
+			v := 0
+			if !s.Closing {
+				if len(m.ask.what) > 7 && m.ask.what[:7] == "choice:" && s.Choose != nil {
+					v = int(s.Choose(in, m.ask.what[7:], uint(m.ask.n)))
+				} else {
+					v = s.Draw(m.ask.what, m.ask.n)
+				}
+			}
+			in.pending = nil
+			m.ask.reply <- v
+			return Step{}, true
+		}
 		if m.exited {
 			in.Live = false
 			in.Err = m.err
-			return Step{Kind: Exited, Err: m.err}
+			return Step{Kind: Exited, Err: m.err}, false
 		}
 		in.Live = true
 		in.PC = m.pc
-		return Step{Kind: Committed, PC: m.pc}
+		return Step{Kind: Committed, PC: m.pc}, false
 	case <-time.After(s.Watchdog):
 		in.Live = false
-		return Step{Kind: Stuck}
+		return Step{Kind: Stuck}, false
 	}
 }
 
@@ -204,6 +255,17 @@ func (s *Sim) Step(in *Instance) Step {
 func (s *Sim) Shutdown() {
 	s.Closing = true
 	for _, in := range s.Insts {
+		if in.pending != nil {
+			// the scheduler was unwound (a control-flow panic of the property library) while
+			// computing a decision for this instance: release it, then let it park again
+			in.pending.reply <- 0
+			in.pending = nil
+			s.running = in
+			s.await(in)
+			s.running = nil
+		}
+	}
+	for _, in := range s.Insts {
 		if !in.Live {
 			continue
 		}
@@ -215,7 +277,9 @@ func (s *Sim) Shutdown() {
 		for in.Live {
 			select {
 			case in.grant <- struct{}{}:
+				s.running = in
 				s.await(in)
+				s.running = nil
 			case <-deadline:
 				break loop
 			}
